@@ -5,20 +5,21 @@
    interpreter limit: known finding).  No IndexError / KeyError / AttributeError / AssertionError
    and no fuel exhaustion (the loops terminate).  Also proved: the two documented failure routes
    end in EncoderError; the inputs the property names are rejected with EncoderError.
-   Last stage (proofs/EncFuel.v, EncIndex.v, EncKey.v, EncAttrErr.v, EncOutcomes.v): once the reader and kekulize have
-   returned, encoder() under a table with a '?' entry returns, raises EncoderError (the strict check), or ends in
-   ValueError - and in nothing else: no IndexError (edges end inside the graph and never at their
+   Last stage (proofs/EncFuel.v, EncIndex.v, EncKey.v, EncAttrErr.v, EncUniq.v, EncOrders.v, EncOutcomes.v): once the
+   reader and kekulize have returned, encoder() under a table with a '?' entry returns or raises EncoderError (the
+   strict check) - and nothing else: no IndexError (edges end inside the graph and never at their
    source, roots are atoms, the arrays stay aligned through kekulize, indices are never negative), no KeyError (every
    ring bond is stored in both directions), no AttributeError (every slot reserved by a ring digit is filled when the
    reader accepts), no fuel exhaustion (tree bonds lead to larger indices), no AssertionError (proofs/EncArom.v: no atom is left aromatic;
    proofs/EncUniq.v: no two edges of a row lead to the same atom, so the two directions of a ring bond always carry the
-   same order).  The residual class is the one internal check whose invariant is not proved here: no bond keeps the
-   order 1.5 after kekulize.  Not proved: crash freedom of kekulisation / matching itself; outcome
+   same order), no ValueError (proofs/EncOrders.v: every bond of order 1.5 joins two atoms of the delocalisation subgraph
+   and is listed there in both directions, so dearomatize rewrites every one of them; orders after kekulize are 1, 2 or 3).
+   Not proved: crash freedom of kekulisation / matching itself; outcome
    classes of implementation and model are compared on malformed input on every run. *)
 From Coq Require Import String List ZArith NArith Bool.
 Import ListNotations.
 From Selfies Require Import Base Generated Atoms Grammar Decoder PySet Matching Smiles Kekulize Encoder
-  IndexSpec IndexCode Reader RoundTrip EncoderFacts PureFacts ParserTotal EncFuel EncIndex EncKey EncAttrErr EncUniq EncOutcomes.
+  IndexSpec IndexCode Reader RoundTrip EncoderFacts PureFacts ParserTotal EncFuel EncIndex EncKey EncAttrErr EncUniq EncOrders EncOutcomes.
 Local Open Scope string_scope.
 
 Theorem C09_parse_error_is_encoder_error_partial : forall capf s strict attribute,
@@ -84,11 +85,22 @@ Theorem C09_emission_no_assertion_error_partial : forall T smiles strict attribu
   encoder T smiles strict attribute = Err e -> e <> AssertionError.
 Proof. exact encoder_after_kekulize_no_assertion_error. Qed.
 
+Theorem C09_emission_no_value_error_partial : forall T smiles strict attribute m0 m1 e,
+  smiles_to_mol smiles attribute = Ok m0 -> kekulize m0 = Ok (Some m1) ->
+  encoder T smiles strict attribute = Err e -> e <> ValueError.
+Proof. exact encoder_after_kekulize_no_value_error. Qed.
+
+(* after kekulize every bond has order 1, 2 or 3 (half units 2, 4, 6) *)
+Theorem C09_kekulize_leaves_integral_orders : forall smiles attribute m0 m1,
+  smiles_to_mol smiles attribute = Ok m0 -> kekulize m0 = Ok (Some m1) ->
+  forall j row e, nth_error (m_adj m1) j = Some row -> In (Some e) row -> (e_order2 e = 2 \/ e_order2 e = 4 \/ e_order2 e = 6)%Z.
+Proof. exact parsed_kekulize_orders. Qed.
+
 (* assembled: the outcomes of the last stage *)
 Theorem C09_last_stage_outcomes_partial : forall T smiles strict attribute m0 m1 e,
   (exists v, assoc (lit "?") T = Some v) ->
   smiles_to_mol smiles attribute = Ok m0 -> kekulize m0 = Ok (Some m1) ->
-  encoder T smiles strict attribute = Err e -> e = EncoderError \/ e = ValueError.
+  encoder T smiles strict attribute = Err e -> e = EncoderError.
 Proof. exact encoder_after_kekulize_outcomes. Qed.
 
 Print Assumptions C09_parse_error_is_encoder_error_partial.
@@ -102,3 +114,5 @@ Print Assumptions C09_emission_no_key_error_partial.
 Print Assumptions C09_emission_no_attribute_error_partial.
 Print Assumptions C09_last_stage_outcomes_partial.
 Print Assumptions C09_emission_no_assertion_error_partial.
+Print Assumptions C09_emission_no_value_error_partial.
+Print Assumptions C09_kekulize_leaves_integral_orders.
